@@ -4,7 +4,6 @@
 // owner does not report: must be treated as an external reference), an id and a canary value.
 // Its Trace/Finalize/Drop callbacks keep the ghost life-cycle automaton of DESIGN section 3 and can
 // perform one driver-chosen action (resurrect, upgrade, collect, allocate, emulated panic).
-#![allow(static_mut_refs)]
 use core::cell::RefCell;
 
 use crate::verif::ghost::{self, g, Act, MAX_OBJ};
